@@ -129,10 +129,12 @@ Fixpoint ddl_tables (igs : list integ) (acc : list table) : list table :=
   end.
 
 (* ---- what Insert emits ---- *)
+(* setIndexing: trace mode is decided by the block-data FIELD name (bd.Name has
+   the prefix trace_), not by the name of the column it is stored in *)
 Inductive shape := ShTx | ShLog | ShTrace.
 Definition s_trace_ : str := s2r "trace_".
 Definition ig_shape (g : integ) : shape :=
-  if existsb (fun b => has_prefix s_trace_ (get_col (ig_table g) (bd_col b))) (ig_block g) then ShTrace
+  if existsb (fun b => has_prefix s_trace_ (bd_name b)) (ig_block g) then ShTrace
   else if negb (is_nil (selected (ig_inputs g))) then ShLog
   else ShTx.
 
